@@ -41,6 +41,7 @@ def run(eng, rep) -> None:
     rep.rule("R01.5", "sign reconstruction takes the negative branch exactly for word >= 2^(N-1)")
     rep.rule("R01.6", "struct pack/unpack use the same format and the byte count of that format")
     rep.rule("R01.7", "no module-level mutable state is read-and-written on the codec path")
+    rep.rule("R01.9", "no bound method object is tested for truth on the codec path (`type.is_signed` for `type.is_signed()` is always true)")
     rep.rule("R01.8", "container decoders obtain every element through the type dispatcher; a direct read is admissible only for element classes whose handler returns the raw word")
     rep.assume("Python integers are unbounded; struct.pack/unpack are exact for f32/f64; native struct format on a little-endian host")
     rep.assume("value plumbing (which datum goes with which transfer) beyond prefix/flag relations is not decided")
@@ -100,6 +101,17 @@ def run(eng, rep) -> None:
     else:
         rep.undecided("R01.4", cc.ci.file, cc.ci.qual, "word primitives", "not both in the recognised per-bit form: %s" % s)
     r015(eng, rep, disp["dec"], pr)
+    # R01.9
+    from ..dataflow import method_objects_tested
+    n9 = 0
+    for q in sorted(set(cg.reachable([ENC, DEC]))):
+        f9 = prog.functions.get(q)
+        if f9 is None or not f9.module.name.startswith("fcp.serde"):
+            continue
+        n9 += 1
+        for t9, cn9, mn9 in method_objects_tested(eng, f9):
+            rep.violation("R01.9", f9.file, f9.qual, norm(t9, 70), "`.%s` is a method of %s and is tested without being called: the bound method object is always true, so the branch it guards is taken for every type (e.g. the two's-complement reconstruction is applied to unsigned and enum fields)" % (mn9, cn9))
+    rep.ok("R01.9", "-", "-", "conditions on the codec path", "%d functions scanned" % n9)
     # R01.6
     for kn in sorted(set(fmts["enc"]) | set(fmts["dec"])):
         pe = [x for x in fmts["enc"].get(kn, []) if x[0] == "pack"]
